@@ -125,7 +125,12 @@ func judgeRS(d Data) engine.Outcome {
 			if !bytes.Equal(got, src[w.off:w.end]) {
 				return fail(seqClass, "token %d is %q, the split function yields %q", wi-1, got, src[w.off:w.end])
 			}
-			if s != w.off || e != w.end {
+			// pos_scanner.go: "the scanner will produce incorrect results if
+			// the given SplitFunc creates tokens between grapheme cluster
+			// boundaries": the byte range is demanded only for tokens (and
+			// advances) that begin and end on cluster boundaries.
+			clean := ix.Boundary(w.off) && ix.Boundary(w.end) && ix.Boundary(w.advStart) && ix.Boundary(w.advEnd)
+			if clean && (s != w.off || e != w.end) {
 				if w.off != w.advStart {
 					return fail("c14.rangescanner.token-after-skipped-prefix", "token %d %q sits at bytes [%d,%d) of the buffer (the split function skipped %q first) but Range() reports bytes [%d,%d), which slice to %q",
 						wi-1, got, w.off, w.end, src[w.advStart:w.off], s, e, safeSlice(src, s, e))
